@@ -226,10 +226,11 @@ def s_history(draw, tier=None):
     pbp = pb_profile_base()
     extra = {"virtual_true": False, "time_of_day": [], "weather": [], "underground": [],
              "tags": sorted(set(base["tags"]) & set(pbp["tags"])), "pb_sign_filter": True,
-             "custom_extra": fp.PB_CUSTOM_EXTRA}
+             "custom_extra": fp.PB_CUSTOM_EXTRA, "min_types": 0}
     n = draw(st.integers(1, 3))
     scenarios = [dict(draw(fp.file_scenario("xml", max_lanelets=3, max_obstacles=3, max_pps=1, min_pps=1,
-                                            decimals=4, extra_profile=extra)), use_scenario_meta=draw(st.booleans()))
+                                            decimals=4, extra_profile=extra)), use_scenario_meta=draw(st.booleans()),
+                      _untyped_lanelets=True)
                  for _ in range(n)]
     precisions = draw(st.lists(st.integers(1, 12), min_size=2, max_size=3, unique=True))
     op = st.one_of(
